@@ -240,3 +240,41 @@ PROPS["C06"] = {
                       "tiers": {"quick": T(25, 2, timeout=600), "thorough": T(600, 4, timeout=3400)}},
     },
 }
+
+PROPS["C19"] = {
+    "level": "exploration",
+    "technique": "property testing against reference prefix arithmetic (net/netip) for the ECS policy, plus audience-model history testing on the real default chain: a recording upstream shows exactly which options leave sdns and stamps answers so every cached reply can be attributed to the audience it was fetched for",
+    "level_text": ("Unit 'policy': generated policies (ceilings, floors, networks, invalid values), client addresses and client-sent subnet options (all families, masks 0-128 and beyond, host bits set) are run through internal/ecs; the forwarded option must equal the net/netip reference (client-stated or transport-derived source, truncated to the ceiling, host bits zeroed) or be absent, and the stored scope must equal min(authority scope, source bits, floor) with family caps. "
+                   "Unit 'audience': histories of 2-10 queries and sleeps on the real default chain under a virtual clock, over generated policies (enabled/disabled, invalid CIDR lists, ceilings, floors, scoped-TTL limit, prefetch threshold), clients inside and outside the permitted networks, hand-encoded client ECS options (malformed ones included) next to cookie/NSID/padding/keepalive/local options, wire-born and decoded ingress. "
+                   "The upstream stub records every option that reaches it and stamps its answer with the call index; the oracle requires (1) no client-supplied option other than ECS upstream, no ECS when forwarding is not permitted, and the reference subnet when it is, (2) no ECS in any client reply, (3) a cached answer that was fetched for a scoped audience is served only to clients whose forwarded subnet lies inside that scope, only within the scoped TTL limit, and never together with background upstream work. Exploration."),
+    "level_note": "Trusted: net/netip prefix arithmetic and the reference reading of the policy (docs in internal/ecs, config comments). The authority's scope is scripted per name; answers synthesised from RFC 8198 denial proofs are outside this harness's upstream stub (it cannot mark validated denials), so the 'no shared denial state for ECS queries' clause is only exercised through C02's cache unit.",
+    "rule": ("evaluations = policy cases / histories. Non-trivial = forwarding was permitted for at least one step or a scoped entry was hit from cache; distinct = hash(policy, step shapes)."),
+    "units": {
+        "policy": {"pkg": "./internal/ecs", "run": "^TestVerifC19Policy$",
+                   "tiers": {"quick": T(30000, 2, timeout=300), "thorough": T(800000, 4, timeout=3000)}},
+        "audience": {"pkg": "./server", "run": "^TestVerifC19Audience$",
+                     "tiers": {"quick": T(1200, 8, timeout=600), "thorough": T(40000, 12, timeout=3400)},
+                     "floors": {"C19.audience": {"forwarding-permitted": 0.15, "scoped-entry-hit": 0.02, "served-from-cache": 0.1, "policy-disabled": 0.05}}},
+    },
+}
+
+PROPS["C02"] = {
+    "level": "exploration",
+    "technique": "property testing of every denial verifier and RFC 8198 evaluator against zone ground truth: generated signed zones, arbitrary subsets/orders/pollutions of their genuine NSEC/NSEC3 chains, generated questions; accept => truth agrees; plus RFC 4034 canonical-order and interval references",
+    "level_text": ("A zone model (owners with escaped/binary labels, wildcards, empty non-terminals, secure and insecure delegations with glue, DNAMEs, CNAMEs; NSEC3 salt/iterations/opt-out) renders the genuine NSEC and NSEC3 chains and answers 'what is true for (name, type)' straight from RFC 1034/4592/6672. "
+                   "Each case hands a generated subset, rotation and pollution of those chains (records of sibling/ancestor zones incl. escaped-dot look-alikes, a second chain with other NSEC3 parameters, another class, a child zone's records), after the same FilterRRsToZone step Resolver.authority applies, to VerifyNameErrorNSEC, VerifyNODATANSEC, VerifyDelegationNSEC, EvaluateAggressiveNSEC(+Prepared), VerifyNameErrorForZoneWithWork, VerifyNODATAForZoneWithWork, VerifyDelegationForZoneWithWork and EvaluateAggressiveNSEC3 for a generated question aimed at owners, ENTs, names below cuts/DNAMEs, wildcard-covered and absent names. "
+                   "Whenever one of them accepts, the zone must agree: NXDOMAIN only for names that do not exist and are not wildcard-matched, NODATA only where the type (and CNAME) is absent and the name is not below a cut or DNAME, 'insecure delegation' only for a delegation without DS; secure=true and every RFC 8198 synthesis is judged strictly, secure=false may lean on an opt-out span only where the signed part of the zone proves nothing to the contrary; mixed NSEC3 parameter/class sets must be refused; RFC 8198 synthesis must not cover the next-closer or wildcard name with an opt-out span. "
+                   "Unit 'order' checks CanonicalCompare, nsecCovers and NameInZone against references written from RFC 4034 §6.1. Exploration."),
+    "level_note": "Trusted: the zone model (vfmodel) as ground truth and miekg/dns NSEC3 hashing. Records are unsigned at this level - the signature/signer binding that precedes the verifiers is C01/C14 territory, which is why in-zone forged records are not generated. The resolver-level clauses (RFC 8020 stop, SERVFAIL vs fabricated denial on incomplete proofs) and admission/expiry orders of the denial-proof and cut caches are not decided by these units. NSEC3 hash collisions are not generated.",
+    "rule": ("evaluations = (zone, record set, question) cases, each put to every verifier. Non-trivial = some verifier accepted, or the record set was a strict subset or polluted; distinct = hash(truth class, qtype, chain size, records given, accepted, polluted/mixed, parameters)."),
+    "units": {
+        "nsec": {"pkg": "./middleware/resolver/dnssec", "run": "^TestVerifC02NSEC$",
+                 "tiers": {"quick": T(15000, 6, timeout=600), "thorough": T(600000, 10, timeout=3400)},
+                 "floors": {"C02.nsec": {"truth:ent": 0.02, "truth:referral": 0.02, "truth:dname": 0.005, "polluted": 0.1, "accepted": 0.2, "partial-chain": 0.3}}},
+        "nsec3": {"pkg": "./middleware/resolver/dnssec", "run": "^TestVerifC02NSEC3$",
+                  "tiers": {"quick": T(6000, 6, timeout=600), "thorough": T(200000, 10, timeout=3400)},
+                  "floors": {"C02.nsec3": {"truth:ent": 0.02, "truth:referral": 0.02, "opt-out-zone": 0.15, "mixed-parameters": 0.1, "accepted": 0.1}}},
+        "order": {"pkg": "./middleware/resolver/dnssec", "run": "^TestVerifC02Order$",
+                  "tiers": {"quick": T(30000, 2, timeout=300), "thorough": T(1000000, 4, timeout=3000)}},
+    },
+}
